@@ -210,9 +210,32 @@ COND = {
 
 
 def make_registry(case, order, dec, consts=None) -> MeshRulesRegistry:
-    reg = MeshRulesRegistry()
+    """case["layout"] (optional) = {"parent": [-1, p1, ...], "short": [bool...], "of_rule": [node per rule],
+    "domain": ".dc1.example.net" | ""}: a tree of registries joined with include() (node 0 is the one handed to the
+    executor; parent[i] < i; children are included in index order), match_short_name per node, every rule registered
+    in its node.  The rule masks of the case are written for the host name WITHOUT the domain part; a node that
+    matches full names gets the mask followed by the (escaped) domain, so that the rule means the same device pairs
+    in every layout."""
+    lay = case.get("layout")
+    if not lay:
+        return _fill_registries(case, order, dec, consts, [MeshRulesRegistry()], [0] * len(case["rules"]), [False], "")
+    nodes = [MeshRulesRegistry(match_short_name=bool(s)) for s in lay["short"]]
+    for i, p in enumerate(lay["parent"]):
+        if p >= 0:
+            nodes[p].include(nodes[i])
+    return _fill_registries(case, order, dec, consts, nodes, lay["of_rule"], lay["short"], lay.get("domain", ""))
+
+
+def _fill_registries(case, order, dec, consts, nodes, of_rule, short, domain) -> MeshRulesRegistry:
+    import re as _re
+
+    def mask(m, node):
+        return m if short[node] else m + _re.escape(domain)
     for idx in order:
         r = case["rules"][idx]
+        node = of_rule[idx]
+        reg = nodes[node]
+        r = dict(r, left=mask(r["left"], node), **({"right": mask(r["right"], node)} if "right" in r else {}))
         if r["kind"] == "virtual":
             h = make_virtual_handler(r["table"], dec, consts)
             h.__qualname__ = f"h{idx}"
@@ -226,7 +249,7 @@ def make_registry(case, order, dec, consts=None) -> MeshRulesRegistry:
             reg.direct(r["left"], r["right"], *conds, port_processor=pp)(h)
         else:
             reg.indirect(r["left"], r["right"], *conds)(h)
-    return reg
+    return nodes[0]
 
 
 OPTION_FIELDS = [f.name for f in dataclasses.fields(PeerOptions)]
